@@ -525,7 +525,74 @@ def gen_sweep_plan(run_seed: int, k: int) -> dict:
     else:
         name, g = "R0", pool.random_grammar(random.Random(common.derive_seed("C15-rg", k % 16, (k // 16) // 4, 0)))
     calls = [c for c in g["calls"] if len(c[1]) <= 48] or g["calls"][:2]
-    flavour = rng.choices(("cold", "warm", "history", "abort", "exhaust"), (5, 3, 2, 2, 1 if g.get("deep") else 0))[0]
+    flavour = rng.choices(("cold", "warm", "history", "abort", "exhaust", "twin"), (5, 3, 2, 2, 1 if g.get("deep") else 0, 3))[0]
+    if flavour == "twin":
+        # TWIN sweep: no threads.  Two grammars that share rule names (and often whole rule
+        # texts) -- the pool's twin pairs, a grammar and its variant under another BUILTIN table,
+        # a random grammar and its reversed-choice twin -- built and generated one after the
+        # other in one process, then EVERY pool call of the second on its parser and its module,
+        # and some calls of the first again.  Whatever is keyed by a name or a rule text meets
+        # its collision here.
+        pairs_ = [("P-leak", "P-leak2"), ("P-builtin", "P-builtin2"), ("P-twin1", "P-twin2")]
+        r = rng.random()
+        same = r < 0.45
+        if same:
+            # SETTINGS sweep: ONE grammar under fourteen optimizer settings -- none, the shared
+            # default, every default pass alone, the default list minus every single pass, two
+            # seeded ones -- built and generated one after the other in a seeded order, then every
+            # pool call on every parser and every module.  ("including ones built with a different
+            # optimizer setting": whatever one setting leaves behind -- rule source, compiled
+            # patterns, rewritten nodes -- must not reach another's objects.)
+            optimizers = {"o_none": {"passes": None}, "o_shared": {"passes": list(pool.PASS_NAMES), "shared_default": True}}
+            for pn in pool.PASS_NAMES:
+                optimizers["s_" + pn.replace(" ", "_")] = {"passes": [pn]}
+                optimizers["m_" + pn.replace(" ", "_")] = {"passes": [x for x in pool.PASS_NAMES if x != pn]}
+            for i in range(2):
+                ps = pool.random_optimizer_cfg(rng)
+                if ps is not None:
+                    optimizers[f"o{i + 1}"] = fold_fixed_point({"passes": ps, "fixed_point": pool.random_fixed_point(rng, ps)})
+            order = sorted(optimizers)
+            rng.shuffle(order)
+            if name not in fixed and len(g["text"]) >= 2100:
+                name = rng.choice(fixed)
+                g = pool.FIXED[name]
+            cs = [list(c) for c in rng.sample(g["calls"], min(len(g["calls"]), 16))]
+            return {
+                "property": "C15", "kind": "sweep", "run_seed": run_seed, "job": k, "grammars": {name: g["text"]}, "optimizers": optimizers,
+                "g": name, "opt": order[0], "mode": "both", "pairs": [], "calls": cs, "settings": order, "flavour": flavour,
+            }
+        if same:
+            # the SAME grammar under two optimizer settings (what one setting's parser or module
+            # leaves behind -- rule source, compiled patterns, rewritten nodes -- must not reach
+            # the other's)
+            a = b = name
+            ga = gb = g
+        elif r < 0.7:
+            a, b = rng.choice(pairs_)
+            ga, gb = pool.FIXED[a], pool.FIXED[b]
+        elif r < 0.87:
+            a = rng.choice(fixed)
+            ga = pool.FIXED[a]
+            b, gb = a + "@alt", pool.alt_variant(ga)
+        else:
+            gseed = common.derive_seed("C15-rg", k % 16, (k // 16) // 4, 1)
+            a, ga = "R1", pool.random_grammar(random.Random(gseed))
+            b, gb = "R1t", pool.random_grammar(random.Random(gseed), reverse_choices=True)
+        if rng.random() < 0.5:
+            a, ga, b, gb = b, gb, a, ga
+        optimizers = {"o_none": {"passes": None}, "o_shared": {"passes": list(pool.PASS_NAMES), "shared_default": True}, "o1": {"passes": pool.random_optimizer_cfg(rng)}, "o2": {"passes": pool.random_optimizer_cfg(rng)}}
+        o1_, o2_ = (rng.choices(("o_none", "o_shared", "o1", "o2"), (3, 3, 3, 3))[0] for _ in range(2))
+        if same:
+            for _ in range(8):
+                if optimizers[o1_]["passes"] != optimizers[o2_]["passes"]:
+                    break
+                o2_ = rng.choice(("o_none", "o_shared", "o1", "o2"))
+        ca = [list(c) for c in rng.sample(ga["calls"], min(len(ga["calls"]), 6))]
+        cb = [list(c) for c in rng.sample(gb["calls"], min(len(gb["calls"]), 36))]
+        return {
+            "property": "C15", "kind": "sweep", "run_seed": run_seed, "job": k, "grammars": {a: ga["text"], b: gb["text"]}, "optimizers": optimizers,
+            "g": a, "g2": b, "opt": o1_, "opt2": o2_ if (same or rng.random() < 0.6) else o1_, "mode": "both", "pairs": [], "calls_a": ca, "calls": cb, "flavour": flavour,
+        }
     if flavour == "history":
         # HISTORY sweep: no threads.  For every pool call c_i: a fresh object, c_i as the FIRST
         # call ever made with it, then every pool call c_j -- all ordered pairs (first call on
@@ -597,6 +664,31 @@ def sweep_phases(plan):
         return setup
 
     only = plan.get("only")  # [[pair index, step], ...]: replay of single rounds
+    if plan["flavour"] == "twin" and plan.get("settings"):
+        ops = []
+        for i, oid in enumerate(plan["settings"]):
+            ops += [{"op": "new", "id": f"p{i}", "g": plan["g"], "opt": oid, "debug": False, "oid": f"tw.new{i}"}, {"op": "gen", "id": f"m{i}", "p": f"p{i}", "oid": f"tw.gen{i}"}]
+        for i in range(len(plan["settings"])):
+            for j, c in enumerate(plan["calls"]):
+                if only is None or [i, j] in only:
+                    ops += [parse(f"p{i}", c, f"tw.s{i}.b{j}.i"), parse(f"m{i}", c, f"tw.s{i}.b{j}.g")]
+        yield {"setup": ops, "clients": [], "schedule": {"first": None, "traced": False, "yields": []}, "faults": [], "history_first": 0}
+        return
+    if plan["flavour"] == "twin":
+        def both(p_, m_, c, tag):
+            return [parse(p_, c, f"{tag}.i"), parse(m_, c, f"{tag}.g")]
+
+        ops = [{"op": "new", "id": "pA", "g": plan["g"], "opt": plan["opt"], "debug": False, "oid": "tw.newA"}, {"op": "gen", "id": "mA", "p": "pA", "oid": "tw.genA"}]
+        for i, c in enumerate(plan["calls_a"][:3]):
+            ops += both("pA", "mA", c, f"tw.a{i}")
+        ops += [{"op": "new", "id": "pB", "g": plan["g2"], "opt": plan["opt2"], "debug": False, "oid": "tw.newB"}, {"op": "gen", "id": "mB", "p": "pB", "oid": "tw.genB"}]
+        for j, c in enumerate(plan["calls"]):
+            if only is None or any(jj == j for _, jj in only):
+                ops += both("pB", "mB", c, f"tw.b{j}")
+        for i, c in enumerate(plan["calls_a"]):
+            ops += both("pA", "mA", c, f"tw.z{i}")
+        yield {"setup": ops, "clients": [], "schedule": {"first": None, "traced": False, "yields": []}, "faults": [], "history_first": 0}
+        return
     if plan["flavour"] == "history":
         calls = plan["calls"]
         for i, ci in enumerate(calls):
@@ -1595,6 +1687,10 @@ class Check:
         if plan.get("kind") == "hashseed":
             return len(plan["calls"])
         if plan.get("kind") == "sweep":
+            if plan["flavour"] == "twin" and plan.get("settings"):
+                return 40 + 30 * len(plan["settings"]) + (20 * len(plan["only"]) if plan.get("only") is not None else 20 * len(plan["calls"]) * len(plan["settings"]))
+            if plan["flavour"] == "twin":
+                return 40 + 20 * len(plan["calls_a"]) + (20 * len(plan["only"]) if plan.get("only") is not None else 20 * len(plan["calls"]))
             if plan["flavour"] == "history":
                 return 40 + (20 * len(plan["only"]) if plan.get("only") is not None else 20 * len(plan["calls"]) ** 2)
             return 40 + (20 * len(plan["only"]) if plan.get("only") is not None else 20 * plan.get("max_rounds", 300) * len(plan["pairs"])) + sum(len(a[1]) + len(b[1]) for a, b in plan["pairs"])
@@ -1614,6 +1710,23 @@ class Check:
         if plan.get("kind") == "sweep":
             # the one round in which the violation was seen (w<pair>_<step>.c?.0), then simpler arguments
             oid = str((plan.get("violation") or {}).get("detail", {}).get("oid") or "")
+            ms = re.match(r"tw\.s(\d+)\.b(\d+)\.", oid)
+            if plan.get("only") is None and ms:
+                yield {**plan, "only": [[int(ms.group(1)), int(ms.group(2))]]}
+            if plan.get("settings") and len(plan["settings"]) > 1:
+                # drop a setting that comes BEFORE or after the violating one (indices in `only` shift)
+                keep_i = plan["only"][0][0] if plan.get("only") else None
+                for i in range(len(plan["settings"])):
+                    if i == keep_i:
+                        continue
+                    st2 = plan["settings"][:i] + plan["settings"][i + 1 :]
+                    on2 = None if plan.get("only") is None else [[ii - (1 if ii > i else 0), jj] for ii, jj in plan["only"]]
+                    yield {**plan, "settings": st2, "only": on2} if on2 is not None else {**plan, "settings": st2}
+            mt = re.match(r"tw\.b(\d+)\.", oid)
+            if plan.get("only") is None and mt:
+                yield {**plan, "only": [[0, int(mt.group(1))]]}
+            if plan["flavour"] == "twin" and plan.get("calls_a"):
+                yield {**plan, "calls_a": plan["calls_a"][:-1]}
             mh = re.match(r"h(\d+)\.then(\d+)$", oid)
             if plan.get("only") is None and mh:
                 yield {**plan, "only": [[int(mh.group(1)), int(mh.group(2))]]}
@@ -1731,6 +1844,19 @@ class Check:
         if plan.get("kind") == "sweep":
             spec = plan["optimizers"][plan["opt"]]
             o = "optimizer=None" if spec["passes"] is None else ("DEFAULT_OPTIMIZER" if spec.get("shared_default") else f"Optimizer({spec['passes']})")
+            if plan["flavour"] == "twin" and plan.get("settings"):
+                def oname(oid):
+                    sp = plan["optimizers"][oid]
+                    return "None" if sp["passes"] is None else ("DEFAULT_OPTIMIZER" if sp.get("shared_default") else f"Optimizer({sp['passes']})")
+                cs = plan["calls"]
+                tail = "every pool call on every parser and module" if plan.get("only") is None else "; ".join(f"parse({cs[j][0]!r}, {cs[j][1][:40]!r}) on parser and module #{i}" for i, j in plan["only"][:3])
+                return f"settings sweep over {plan['g']}: new + generate+exec under " + ", ".join(f"#{i} {oname(x)}" for i, x in enumerate(plan["settings"])) + f"; then {tail}"
+            if plan["flavour"] == "twin":
+                spec2 = plan["optimizers"][plan["opt2"]]
+                o2 = "optimizer=None" if spec2["passes"] is None else ("DEFAULT_OPTIMIZER" if spec2.get("shared_default") else f"Optimizer({spec2['passes']})")
+                cs = plan["calls"] if plan.get("only") is None else [plan["calls"][j] for _, j in plan["only"]]
+                return (f"twin sweep: pA=new({plan['g']}, {o}); mA=generate+exec(pA); {len(plan['calls_a'][:3])} call(s) of it; pB=new({plan['g2']}, {o2}); mB=generate+exec(pB); then on pB and mB: "
+                        + "; ".join(f"parse({c[0]!r}, {c[1][:40]!r})" for c in cs[:4]) + (" ..." if len(cs) > 4 else "") + f"; then {len(plan['calls_a'])} call(s) of pA / mA again")
             if plan["flavour"] == "history":
                 cs = plan["calls"]
                 if plan.get("only") is not None:
